@@ -33,7 +33,7 @@ def _remove(obj, d, x, num, via):
         obj.remove_knot(**kw)
 
 
-def h_insert_remove(cx, sp, d, r, r2, via='operations'):
+def h_insert_remove(cx, sp, d, r, r2, via='operations', after_sibling=False):
     ops = geo.M('operations')
     obj, info = shapes.build(cx, sp)
     ref = shapes.clone(obj)
@@ -48,6 +48,11 @@ def h_insert_remove(cx, sp, d, r, r2, via='operations'):
     s = shapes.multiplicity(cx, x, kv)
     if r > p - s:
         cx.assume(False)
+    if after_sibling:
+        def _same_on_sibling(sib, _i):
+            ops.insert_knot(sib, _vec(pd, d, x), _vec(pd, d, r, 0))
+            _remove(sib, d, x, r2, via)
+        shapes.prime_with_sibling(cx, sp, _same_on_sibling)
     ops.insert_knot(obj, _vec(pd, d, x), _vec(pd, d, r, 0))
     mid = shapes.snapshot(obj)
     _remove(obj, d, x, r2, via)
@@ -136,10 +141,16 @@ def instances(tier):
     out = []
     quick = tier == 'quick'
 
-    def add(sp, d, r, r2, via='operations', timeout=900):
-        nm = '%s ins%d-rem%d dir %s %s' % (spec_name(sp), r, r2, shapes.DIRS[d], via)
+    def add(sp, d, r, r2, via='operations', timeout=900, after_sibling=False):
+        nm = '%s ins%d-rem%d dir %s %s%s' % (spec_name(sp), r, r2, shapes.DIRS[d], via, ' after a sibling' if after_sibling else '')
         if not any(i.name == nm for i in out):
-            out.append(inst(nm, h_insert_remove, timeout=timeout, sp=sp, d=d, r=r, r2=r2, via=via))
+            out.append(inst(nm, h_insert_remove, timeout=timeout, sp=sp, d=d, r=r, r2=r2, via=via, after_sibling=after_sibling))
+
+    add(spec('curve', (2,), ((1,),), rational=False), 0, 1, 1, after_sibling=True)
+    add(spec('curve', (3,), ((1,),), rational=True), 0, 2, 2, via='method', after_sibling=True)
+    add(spec('surface', (1, 2), ((1,), ()), rational=False), 1, 1, 1, after_sibling=True)
+    add(spec('surface', (2, 1), ((), (1,)), rational=True), 0, 1, 1, after_sibling=True)
+    add(spec('volume', (1, 1, 2), ((), (1,), ()), rational=False), 2, 1, 1, after_sibling=True, timeout=1800)
 
     for p in ((1, 2, 3) if quick else (1, 2, 3, 4, 5)):
         for m in [(), (1,)] + ([(2,), (1, 1)] if p >= 2 else []) + ([] if quick or p < 3 else [(p - 1,), (1, 2, 1)]):
